@@ -139,5 +139,5 @@ def run(ctx):
         if ctx.tier == "quick" and "q" in tiers:
             ctx.add(n, kq, timeout=1200)
         elif ctx.tier == "thorough":
-            ctx.add(n, min(kt, (kq or 36) + 10), timeout=1200, min_K=kq or 36, chunk=2)
+            ctx.add(n, (kq + 6) if kq else 36, timeout=1200, min_K=kq or 30, chunk=2)
     ctx.run()
